@@ -367,7 +367,9 @@ class ClientWorldObjectManager:
         if old_region_handle != new_region_handle:
             # The object just changed regions, we have to remove it from the old one.
             # Our LocalID will most likely change because, well, our locale changed.
-            old_region_state.untrack_object(obj)
+            # May not have been tracked by any region if it had moved to an unknown one.
+            if old_region_state is not None:
+                old_region_state.untrack_object(obj)
         elif old_local_id != new_local_id:
             # Our LocalID changed, and we deal with linkages to other prims by
             # LocalID association. Break any links since our LocalID is changing.
